@@ -44,6 +44,11 @@ import (
 // (class "crash") and error answers of the execution layer to the calls of a production step (class "exec": the
 // step fails after the batch has been taken; what follows — retry, restart, more reaping — is any continuation of
 // the alphabet). The oracle is the same for both.
+//
+// One configuration dimension is explored besides the queue size: node.max_pending_headers_and_data (0, 1, 2). With
+// a limit the production step declines while the header or the data backlog (chain height minus the DA-submission
+// watermark) is at the limit; the environment dimension "what the DA layer has acknowledged" is two more actions
+// (see maxPendings). A declined step must leave every transaction where a later step finds it: the oracle is unchanged.
 
 const (
 	actInjectA = iota
@@ -52,10 +57,12 @@ const (
 	actReap
 	actProduce
 	actRestart
+	actSubmitH // one iteration of the header submission loop against a DA layer that accepts (only with a pending limit)
+	actSubmitD // one iteration of the data submission loop against a DA layer that accepts (only with a pending limit)
 	nActs
 )
 
-var actNames = [nActs]string{"inject(a)", "inject(b)", "inject(a-again)", "reap", "produce", "restart"}
+var actNames = [nActs]string{"inject(a)", "inject(b)", "inject(a-again)", "reap", "produce", "restart", "da-acks-headers", "da-acks-data"}
 
 var (
 	txA = []byte("tx-a")
@@ -76,6 +83,16 @@ const (
 // reported without the tag, and every other clause stays armed.
 var queueSizes = []int{1, 2}
 
+// Configuration dimension node.max_pending_headers_and_data (0 = no limit, the default). With a limit the production
+// step reads the two DA-submission watermarks (last submitted header height / data height); what the DA layer has
+// acknowledged is an environment dimension: the two actions da-acks-headers / da-acks-data run the body of one
+// iteration of HeaderSubmissionLoop / DataSubmissionLoop (same functions, through the hooks) against a DA double
+// that accepts everything it is sent. A DA layer that accepts nothing / headers only / data only for a while is the
+// absence of the respective action in that stretch of the history; since an acknowledgement can be placed between
+// any two production steps, every pair of watermark positions (0..height each) is reachable within the depth.
+// Without a limit the watermarks are never read by reaping or production, so the two actions are left out there.
+var maxPendings = []uint64{0, 1, 2}
+
 // the bubble's clock starts at 2000-01-01T00:00:00Z and never advances; genesis lies one hour before it
 var genesisTime = time.Date(1999, 12, 31, 23, 0, 0, 0, time.UTC)
 
@@ -86,6 +103,12 @@ type flags struct {
 	aInjected, bInjected bool
 	aPending             bool // a is in the mempool right now
 	dirty                bool // a reap or a production step ran since the last (re)boot
+	limit                bool // a pending limit is configured (max_pending_headers_and_data > 0)
+	// headers / data are pending DA submission (chain height above the watermark): exact in the real run (read from
+	// the manager before every decision); in the static enumeration of openings over-approximated by "a production
+	// step has been tried" (an opening whose acknowledgement finds nothing pending is the identity of a shorter
+	// opening and is cut in the real run, counted as `pruned`)
+	hPend, dPend bool
 }
 
 // enabled lists the actions that make sense in the current state:
@@ -108,6 +131,12 @@ func enabled(f flags) []int {
 	if f.dirty {
 		out = append(out, actRestart)
 	}
+	if f.limit && f.hPend {
+		out = append(out, actSubmitH)
+	}
+	if f.limit && f.dPend {
+		out = append(out, actSubmitD)
+	}
 	return out
 }
 
@@ -117,8 +146,13 @@ func apply(f flags, a int) flags {
 		f.aInjected, f.aPending = true, true
 	case actInjectB:
 		f.bInjected = true
-	case actReap, actProduce:
+	case actReap:
 		f.dirty = true
+	case actProduce:
+		f.dirty = true
+		f.hPend, f.dPend = true, true // static over-approximation; the real run overwrites both before every decision
+	case actSubmitH, actSubmitD:
+		f.dirty = true // the watermark is also held in memory: a restart afterwards re-reads it from the store
 	case actRestart:
 		f.dirty = false
 	}
@@ -126,33 +160,37 @@ func apply(f flags, a int) flags {
 }
 
 type opening struct {
-	QSize int
-	Acts  []int
+	QSize      int
+	MaxPending uint64
+	Acts       []int
 }
 
 // openings enumerates, per queue size, every enabled action sequence of length 0..openLen; within the first
 // openLen actions tx a cannot have been executed yet (inject, reap, a production step for the genesis block and one
 // more for the batch are needed: a can be absent from the mempool again after the 4th action at the earliest), so the
-// static flags are exact; the real run cross-checks this.
+// static flags are exact for injections, reaping, production and restarts; the real run cross-checks this. The two
+// acknowledgement actions are enabled statically once a production step has been tried (see flags.hPend).
 // Sorted by length so that the long (expensive) ones are dealt out evenly over process shards.
-var openings = func() []opening {
+func openingsFor(mps []uint64) []opening {
 	var out []opening
-	var rec func(q int, f flags, acts []int)
-	rec = func(q int, f flags, acts []int) {
-		out = append(out, opening{q, append([]int(nil), acts...)})
+	var rec func(q int, mp uint64, f flags, acts []int)
+	rec = func(q int, mp uint64, f flags, acts []int) {
+		out = append(out, opening{q, mp, append([]int(nil), acts...)})
 		if len(acts) == openLen {
 			return
 		}
 		for _, a := range enabled(f) {
-			rec(q, apply(f, a), append(acts, a))
+			rec(q, mp, apply(f, a), append(acts, a))
 		}
 	}
-	for _, q := range queueSizes {
-		rec(q, flags{}, nil)
+	for _, mp := range mps {
+		for _, q := range queueSizes {
+			rec(q, mp, flags{limit: mp > 0}, nil)
+		}
 	}
 	sort.SliceStable(out, func(i, j int) bool { return len(out[i].Acts) < len(out[j].Acts) })
 	return out
-}()
+}
 
 // ---------------------------------------------------------------------------------------------------------------
 // recording wrapper around the real sequencer (only records; survives reboots)
@@ -214,6 +252,14 @@ type viol struct {
 }
 
 type outcome struct {
+	pruned bool // the opening contains an acknowledgement that finds nothing pending (identity; covered by a shorter opening)
+	mp     uint64
+	declH  int // explored production steps that ran with only the header backlog at the limit
+	declD  int // ... only the data backlog at the limit
+	declHD int // ... both backlogs at the limit
+	declW  int // ... of all these: with a non-empty batch waiting in the sequencer's queue
+	resume int // explored production steps below the limit after an earlier one at the limit
+	acks   int // acknowledgement actions executed
 	viols  []viol
 	eng    string
 	trace  []string
@@ -243,6 +289,10 @@ func kindOf(w world.Write) string {
 		return "queue-put"
 	case k == "/m/l":
 		return "batch-cursor"
+	case k == "/m/last-submitted-header-height":
+		return "header-watermark"
+	case k == "/m/last-submitted-data-height":
+		return "data-watermark"
 	case k == "/t":
 		return "chain-height"
 	case k == "/s":
@@ -261,17 +311,17 @@ func names(txs [][]byte) string {
 	return "[" + strings.Join(s, ",") + "]"
 }
 
-func body(t *testing.T, c *explore.Ctx, depth int) (out outcome) {
-	synctest.Test(t, func(t *testing.T) { out = bubble(c, depth) })
+func body(t *testing.T, c *explore.Ctx, depth int, openings []opening) (out outcome) {
+	synctest.Test(t, func(t *testing.T) { out = bubble(c, depth, openings) })
 	return
 }
 
-func bubble(c *explore.Ctx, depth int) (out outcome) {
+func bubble(c *explore.Ctx, depth int, openings []opening) (out outcome) {
 	ctx := context.Background()
 	op := openings[c.Choose("open", len(openings))]
-	out.qsize = op.QSize
+	out.qsize, out.mp = op.QSize, op.MaxPending
 	env := world.NewEnv()
-	p := world.Params{ChainID: "c11", GenesisTime: genesisTime}
+	p := world.Params{ChainID: "c11", GenesisTime: genesisTime, MaxPending: op.MaxPending}
 	rec := &record{}
 
 	var (
@@ -287,6 +337,8 @@ func bubble(c *explore.Ctx, depth int) (out outcome) {
 		sawKnown bool
 		execPos  []string // positions of the injected executor errors (and what the next action was)
 		execOpen = -1     // index into execPos of an executor error whose following action is not known yet
+		limitPos []string // pending-limit features of the explored production steps (from watermarks + configuration, never from the outcome)
+		declined bool     // an explored production step ran with a backlog at the limit
 	)
 	ev := func(f string, a ...any) { out.trace = append(out.trace, fmt.Sprintf(f, a...)) }
 
@@ -413,8 +465,77 @@ func bubble(c *explore.Ctx, depth int) (out outcome) {
 		}
 		return false
 	}
-	var fl flags
+	fl := flags{limit: op.MaxPending > 0}
 	restarts, reinjected := 0, false
+	// pend reads the two backlogs (chain height minus watermark) of the running process
+	pend := func() (uint64, uint64) { return n.M.VerifNumPendingHeaders(), n.M.VerifNumPendingData() }
+	refresh := func() {
+		fl.aPending = pendingA()
+		h, d := pend()
+		fl.hPend, fl.dPend = h > 0, d > 0
+	}
+	// one iteration of the header / data submission loop (block/submitter.go: the statements between two ticks, through
+	// the hooks) against a DA layer that accepts what it is sent; false = the process crashed
+	submitH := func() bool {
+		curKind, done = "da-acks-headers", nil
+		return world.Go(func() {
+			if n.M.VerifNumPendingHeaders() == 0 {
+				return
+			}
+			hs, err := n.M.VerifPendingHeaders(ctx)
+			if err != nil || len(hs) == 0 {
+				return
+			}
+			_ = n.M.VerifSubmitHeaders(ctx, hs)
+		})
+	}
+	submitD := func() bool {
+		curKind, done = "da-acks-data", nil
+		return world.Go(func() {
+			if n.M.VerifNumPendingData() == 0 {
+				return
+			}
+			ds, err := n.M.VerifCreateSignedData(ctx)
+			if err != nil || len(ds) == 0 {
+				return
+			}
+			_ = n.M.VerifSubmitData(ctx, ds)
+		})
+	}
+	// limitFeature classifies an explored production step from the configuration and the watermarks as they are when
+	// the step starts: which backlog is at the limit, and whether a batch is waiting in the sequencer's queue.
+	limitFeature := func() {
+		if op.MaxPending == 0 {
+			return
+		}
+		h, d := pend()
+		hAt, dAt := h >= op.MaxPending, d >= op.MaxPending
+		if !hAt && !dAt {
+			if declined {
+				out.resume++
+				limitPos = append(limitPos, "limit:produce-below-limit-after-decline")
+			}
+			return
+		}
+		declined = true
+		which := "headers+data"
+		switch {
+		case hAt && !dAt:
+			which = "headers"
+			out.declH++
+		case dAt && !hAt:
+			which = "data"
+			out.declD++
+		default:
+			out.declHD++
+		}
+		f := "limit:produce-with-backlog-at-limit[" + which + "]"
+		if len(n.KV.Keys("/batches/")) > 0 {
+			out.declW++
+			f += "+batch-waiting"
+		}
+		limitPos = append(limitPos, f)
+	}
 	// one reap / one production step; false = the process crashed (and was rebooted on the exact image)
 	reap := func() bool {
 		curKind, done = "reap", nil
@@ -447,7 +568,14 @@ func bubble(c *explore.Ctx, depth int) (out outcome) {
 			env.Exec.Inject(txB)
 		case actReap:
 			crashed = !reap()
+		case actSubmitH:
+			out.acks++
+			crashed = !submitH()
+		case actSubmitD:
+			out.acks++
+			crashed = !submitD()
 		case actProduce:
+			limitFeature()
 			err, ok := produce()
 			crashed = !ok
 			if ok && err != nil {
@@ -465,10 +593,14 @@ func bubble(c *explore.Ctx, depth int) (out outcome) {
 
 	// explored actions: the opening, then free choices up to the depth bound (choice 0 = stop)
 	for i, a := range op.Acts {
-		fl.aPending = pendingA()
+		refresh()
 		ok := false
 		for _, e := range enabled(fl) {
 			ok = ok || e == a
+		}
+		if !ok && (a == actSubmitH || a == actSubmitD) {
+			out.pruned = true
+			return
 		}
 		if !ok {
 			out.eng = fmt.Sprintf("opening %v: action %d (%s) is not enabled in the real run", op.Acts, i, actNames[a])
@@ -480,7 +612,7 @@ func bubble(c *explore.Ctx, depth int) (out outcome) {
 	}
 	if len(op.Acts) == openLen {
 		for out.nActs < depth {
-			fl.aPending = pendingA()
+			refresh()
 			en := enabled(fl)
 			k := c.Choose("act", 1+len(en))
 			if k == 0 {
@@ -509,6 +641,10 @@ func bubble(c *explore.Ctx, depth int) (out outcome) {
 			out.eng = "crash during the drain"
 			return
 		}
+		if op.MaxPending > 0 && !(submitH() && submitD()) { // back-pressure ends: the DA layer acknowledges everything
+			out.eng = "crash during the drain"
+			return
+		}
 		if _, ok := produce(); !ok {
 			out.eng = "crash during the drain"
 			return
@@ -520,6 +656,16 @@ func bubble(c *explore.Ctx, depth int) (out outcome) {
 	var tags []string
 	tags = append(tags, crashPos...)
 	tags = append(tags, execPos...)
+	if op.MaxPending > 0 {
+		tags = append(tags, fmt.Sprintf("max-pending=%d", op.MaxPending))
+		seenL := map[string]bool{}
+		for _, l := range limitPos {
+			if !seenL[l] {
+				seenL[l] = true
+				tags = append(tags, l)
+			}
+		}
+	}
 	if sawKnown {
 		tags = append(tags, "note:a-crash-at-the-known-position-occurred")
 	}
@@ -597,6 +743,10 @@ func bubble(c *explore.Ctx, depth int) (out outcome) {
 		}
 	}
 
+	cfgStr := fmt.Sprintf("queue size %d", op.QSize)
+	if op.MaxPending > 0 {
+		cfgStr += fmt.Sprintf(", max_pending_headers_and_data %d", op.MaxPending)
+	}
 	// clause taken-tx-committed
 	var lostKnown, lostOther []string
 	for _, k := range taken {
@@ -609,10 +759,10 @@ func bubble(c *explore.Ctx, depth int) (out outcome) {
 		}
 	}
 	if len(lostKnown) > 0 {
-		add("taken-tx-committed", fmt.Sprintf("queue size %d: the reaper obtained %v from GetTxs, but after %d well-formed reap+produce rounds the chain does not contain them; their batch had been removed from the sequencer's persistent queue and the process crashed before the block was first saved. chain: %s", op.QSize, lostKnown, rounds, chainStr), knownTag)
+		add("taken-tx-committed", fmt.Sprintf("%s: the reaper obtained %v from GetTxs, but after %d well-formed reap+produce rounds the chain does not contain them; their batch had been removed from the sequencer's persistent queue and the process crashed before the block was first saved. chain: %s", cfgStr, lostKnown, rounds, chainStr), knownTag)
 	}
 	if len(lostOther) > 0 {
-		add("taken-tx-committed", fmt.Sprintf("queue size %d: the reaper obtained %v from GetTxs, but after %d well-formed reap+produce rounds the chain does not contain them. chain: %s", op.QSize, lostOther, rounds, chainStr))
+		add("taken-tx-committed", fmt.Sprintf("%s: the reaper obtained %v from GetTxs, but after %d well-formed reap+produce rounds the chain does not contain them. chain: %s", cfgStr, lostOther, rounds, chainStr))
 	}
 
 	// clause release-order: the non-empty blocks are, in order, batches the sequencer released (a subsequence)
@@ -632,7 +782,7 @@ func bubble(c *explore.Ctx, depth int) (out outcome) {
 			for _, r := range rec.released {
 				rel = append(rel, names(r))
 			}
-			add("release-order", fmt.Sprintf("queue size %d: block contents %s are not, in this order, batches the sequencer released; released: %s; chain: %s", op.QSize, names(cb), strings.Join(rel, " "), chainStr))
+			add("release-order", fmt.Sprintf("%s: block contents %s are not, in this order, batches the sequencer released; released: %s; chain: %s", cfgStr, names(cb), strings.Join(rel, " "), chainStr))
 			break
 		}
 	}
@@ -648,7 +798,7 @@ func bubble(c *explore.Ctx, depth int) (out outcome) {
 		sort.Strings(keys)
 		for _, k := range keys {
 			if committed[k] > offers[k] {
-				add("no-double-inclusion", fmt.Sprintf("queue size %d: no crash happened, the mempool offered %q %d time(s) (re-offers only count after execution removed it), the chain contains it %d times. chain: %s", op.QSize, k, offers[k], committed[k], chainStr))
+				add("no-double-inclusion", fmt.Sprintf("%s: no crash happened, the mempool offered %q %d time(s) (re-offers only count after execution removed it), the chain contains it %d times. chain: %s", cfgStr, k, offers[k], committed[k], chainStr))
 			}
 		}
 	}
@@ -675,16 +825,21 @@ func bubble(c *explore.Ctx, depth int) (out outcome) {
 		}
 	}
 	if len(forgotten) > 0 {
-		add("handoff-retried", fmt.Sprintf("queue size %d: the hand-off of %v was refused (queue full) and never repeated successfully in %d well-formed reap+produce rounds. chain: %s", op.QSize, forgotten, rounds, chainStr))
+		add("handoff-retried", fmt.Sprintf("%s: the hand-off of %v was refused (queue full) and never repeated successfully in %d well-formed reap+produce rounds. chain: %s", cfgStr, forgotten, rounds, chainStr))
 	}
 
-	out.sig = fmt.Sprintf("q%d|%s|refused=%d|released=%d|crash=%v|exec=%v|quiescent=%v", op.QSize, chainStr, out.refuse, len(rec.released), crashPos, execPos, quiescent)
+	var limSig []string
+	for _, l := range limitPos {
+		limSig = append(limSig, strings.TrimPrefix(l, "limit:produce-"))
+	}
+	out.sig = fmt.Sprintf("mp%d%v|", op.MaxPending, limSig) + fmt.Sprintf("q%d|%s|refused=%d|released=%d|crash=%v|exec=%v|quiescent=%v", op.QSize, chainStr, out.refuse, len(rec.released), crashPos, execPos, quiescent)
 	return
 }
 
 type replay struct {
-	Depth   int             `json:"depth"`
-	Choices []explore.Point `json:"choices"`
+	Depth       int             `json:"depth"`
+	MaxPendings []uint64        `json:"max_pendings,omitempty"` // the phase's values of the configuration dimension (absent = [0])
+	Choices     []explore.Point `json:"choices"`
 }
 
 func TestCheck(t *testing.T) {
@@ -694,17 +849,35 @@ func TestCheck(t *testing.T) {
 		return
 	}
 	// Deviations: crashes (class "crash") and executor error answers (class "exec"); `Faults` bounds their sum.
-	// quick: depth 6 with at most one deviation (one crash OR one executor error). thorough: depth 8 with at most one
-	// deviation AND depth 7 with at most two (two crashes, two executor errors, or one of each in either order;
-	// depth 8 with two deviations is beyond the thorough budget).
+	// Without a pending limit — quick: depth 6 with at most one deviation (one crash OR one executor error). thorough:
+	// depth 8 with at most one deviation AND depth 7 with at most two (two crashes, two executor errors, or one of each
+	// in either order; depth 8 with two deviations is beyond the thorough budget).
+	// With a pending limit (max_pending_headers_and_data 1 and 2; alphabet extended by the two DA acknowledgements) —
+	// quick: depth 6 without deviations (the shortest history with ONE backlog at limit 2 and a batch waiting has 6
+	// actions: produce, produce, da-acks-headers, inject, reap, produce) AND depth 5 with at most one deviation.
+	// thorough: depth 8 without deviations AND depth 6 with at most one (extrapolated from the measured quick phases
+	// with a growth of about 5.5 per action: about 1.9 M and 0.5 M executions on top of the 4.8 M without a limit).
 	type phase struct {
 		Depth    int           `json:"depth"`
 		Crash    int           `json:"crash"`
 		Exec     int           `json:"exec_errors"`
 		Faults   int           `json:"crashes_plus_exec_errors"`
 		Deadline time.Duration `json:"-"`
+		// values of node.max_pending_headers_and_data explored in this phase (0 = no limit)
+		MaxPending []uint64 `json:"max_pending_headers_and_data"`
 	}
-	phases := vf.Pick(r, []phase{{6, 1, 1, 1, 150 * time.Second}}, []phase{{8, 1, 1, 1, 8 * time.Minute}, {7, 2, 2, 2, 17 * time.Minute}})
+	phases := vf.Pick(r,
+		[]phase{{6, 1, 1, 1, 150 * time.Second, []uint64{0}}, {6, 0, 0, 0, 150 * time.Second, []uint64{1, 2}}, {5, 1, 1, 1, 150 * time.Second, []uint64{1, 2}}},
+		[]phase{{8, 1, 1, 1, 8 * time.Minute, []uint64{0}}, {7, 2, 2, 2, 17 * time.Minute, []uint64{0}}, {8, 0, 0, 0, 5 * time.Minute, []uint64{1, 2}}, {6, 1, 1, 1, 4 * time.Minute, []uint64{1, 2}}})
+	if sel := os.Getenv("C11_PHASES"); sel != "" { // development aid: run only the listed phases (indices, e.g. "1,2")
+		var keep []phase
+		for i := range phases {
+			if strings.Contains(","+sel+",", fmt.Sprintf(",%d,", i)) {
+				keep = append(keep, phases[i])
+			}
+		}
+		phases = keep
+	}
 	if os.Getenv("C11_NO_DEADLINE") != "" { // development aid: measure the size of a tier on a loaded machine
 		for i := range phases {
 			phases[i].Deadline = 0
@@ -714,6 +887,7 @@ func TestCheck(t *testing.T) {
 		"crash model: the process (manager + reaper + sequencer, one datastore) dies between two durable datastore writes (a put, a delete, one batch commit are atomic units); nothing in memory survives; the mempool/executor is external and survives",
 		"mempool double: contract-conforming (GetTxs does not drain, ExecuteTxs removes executed transactions) and holding at most one entry per byte string at a time (identical bytes are injected again only after execution removed them)",
 		"datastore wiring as in apps/testapp + node/full.go: one datastore; node store and reaper seen-set share one view, the sequencer namespaces its queue under /batches",
+		"pending limit: node.max_pending_headers_and_data in {0 (default, no limit), 1, 2}; the DA layer is a double that accepts every blob it is sent in one call; DA back-pressure (nothing / only headers / only data acknowledged for a stretch of the history) is the absence of the action da-acks-headers / da-acks-data in that stretch; one such action = the statements of one iteration of block.HeaderSubmissionLoop / DataSubmissionLoop between two ticks (isEmpty test, getPendingHeaders + submitHeadersToDA resp. createSignedDataToSubmit + submitDataToDA, called through hooks), the ticker-driven loops themselves do not run; without a limit the watermarks are not read by reaping or production and the two actions are left out; with a limit the drain acknowledges headers and data in every round (reap, da-acks-headers, da-acks-data, produce): back-pressure ends",
 		"virtual time (synctest): the sequencer's time.Now() never goes backwards, so the 'timestamp earlier than the last block' rejection of a taken batch (manager.go) is not reachable in this world",
 		"executor error model: a failing ExecuteTxs / SetFinal returns an error and leaves the execution layer untouched (nothing executed, mempool unchanged); it is transient (the drain and all calls not chosen to fail succeed). GetTxs and InitChain never fail. SetFinal is only called by the DA-inclusion loop, which does not run in this world (calls seen are counted in first_shard_setfinal_calls_seen)",
 		"'appears in a committed block at the end' is decided after a well-formed drain: reap+produce rounds without crashes and without executor errors until one round hands nothing off, produces an empty block and leaves the queue empty (at most 10 rounds)",
@@ -725,8 +899,11 @@ func TestCheck(t *testing.T) {
 			r.EngineError(err.Error())
 		} else {
 			explore.ReplayOne(rp.Choices, func(c *explore.Ctx) {
-				o := body(t, c, rp.Depth)
-				fmt.Printf("replay queue size %d:\n  %s\n", o.qsize, strings.Join(o.trace, "\n  "))
+				if len(rp.MaxPendings) == 0 {
+					rp.MaxPendings = []uint64{0}
+				}
+				o := body(t, c, rp.Depth, openingsFor(rp.MaxPendings))
+				fmt.Printf("replay queue size %d, max pending %d:\n  %s\n", o.qsize, o.mp, strings.Join(o.trace, "\n  "))
 				if o.eng != "" {
 					r.EngineError(o.eng)
 				}
@@ -739,19 +916,55 @@ func TestCheck(t *testing.T) {
 		return
 	}
 	// counters (guarded by a one-slot channel)
-	type counters struct{ refusal, crash, crashFree, knownPos, execErr, execAndCrash, plain, finals, sampExec, sampCrash int64 }
+	type counters struct {
+		refusal, crash, crashFree, knownPos, execErr, execAndCrash, plain, finals, sampExec, sampCrash int64
+		pruned, limited, declH, declD, declHD, declW, declWCrash, resume, acks, sampLimit              int64
+	}
 	cnt := make(chan counters, 1)
 	cnt <- counters{}
 	var total explore.Stats
 	var caps []string
+	nOpenings := map[string]int{}
 	for _, ph := range phases {
+		ops := openingsFor(ph.MaxPending)
+		nOpenings[fmt.Sprintf("depth %d, deviations %d, max_pending %v", ph.Depth, ph.Faults, ph.MaxPending)] = len(ops)
 		st := explore.Explore(explore.Config{Budgets: map[string]int{"crash": ph.Crash, "exec": ph.Exec}, Total: ph.Faults, Free: []string{"open", "act"}, Deadline: ph.Deadline}, func(c *explore.Ctx) {
-			o := body(t, c, ph.Depth)
+			o := body(t, c, ph.Depth, ops)
 			if o.eng != "" {
 				r.EngineError(o.eng + " | " + strings.Join(o.trace, " ; "))
 				return
 			}
+			if o.pruned {
+				v := <-cnt
+				v.pruned++
+				cnt <- v
+				return
+			}
 			v := <-cnt
+			if o.mp > 0 {
+				v.limited++
+				if o.declH > 0 {
+					v.declH++
+				}
+				if o.declD > 0 {
+					v.declD++
+				}
+				if o.declHD > 0 {
+					v.declHD++
+				}
+				if o.declW > 0 {
+					v.declW++
+					if o.crashs+o.execEr > 0 {
+						v.declWCrash++
+					}
+				}
+				if o.resume > 0 {
+					v.resume++
+				}
+				if o.acks > 0 {
+					v.acks++
+				}
+			}
 			if o.refuse > 0 {
 				v.refusal++
 			}
@@ -780,16 +993,20 @@ func TestCheck(t *testing.T) {
 					v.sampCrash++
 					sample = true
 				}
+				if !sample && o.declW > 0 && o.declD+o.declH > 0 && v.sampLimit < 2 {
+					v.sampLimit++
+					sample = true
+				}
 			}
 			cnt <- v
 			for _, vi := range o.viols {
-				r.Report(vf.Violation{Clause: vi.clause, Tags: vi.tags, Msg: vi.msg + "\n history: " + strings.Join(o.trace, " ; "), Cost: c.Cost() + o.nActs, History: replay{ph.Depth, c.Choices()}})
+				r.Report(vf.Violation{Clause: vi.clause, Tags: vi.tags, Msg: vi.msg + "\n history: " + strings.Join(o.trace, " ; "), Cost: c.Cost() + o.nActs, History: replay{ph.Depth, ph.MaxPending, c.Choices()}})
 				r.Outcome("fail:" + vi.clause)
 			}
 			if len(o.viols) == 0 {
 				r.Outcome(o.sig)
 				if sample {
-					r.Sample(map[string]any{"queue_size": o.qsize, "history": o.trace, "signature": o.sig})
+					r.Sample(map[string]any{"queue_size": o.qsize, "max_pending": o.mp, "history": o.trace, "signature": o.sig})
 				}
 			}
 		})
@@ -802,19 +1019,23 @@ func TestCheck(t *testing.T) {
 			r.EngineError("nondeterminism: " + m)
 		}
 		if st.Capped != "" {
-			caps = append(caps, fmt.Sprintf("depth %d, crashes %d: %s", ph.Depth, ph.Crash, st.Capped))
+			caps = append(caps, fmt.Sprintf("depth %d, deviations %d, max_pending %v: %s", ph.Depth, ph.Faults, ph.MaxPending, st.Capped))
 		}
 	}
 	v := <-cnt
 	r.Finish(vf.Coverage{
 		// States = deviation-free (no crash, no executor error) action histories executed (summed over the process shards; every shard runs the empty history)
 		Evaluations: total.Executions, DistinctNontrivial: int64(r.DistinctOutcomes()), States: v.plain, Transitions: total.Points,
-		Rule:       "for each (depth, crash, exec_errors, crashes_plus_exec_errors) phase and each queue size: every enabled action history of length 0..depth over {inject a, inject b, inject a again (same bytes, once execution removed it), reap = Reaper.SubmitTxs, produce = one publishBlock step, clean restart = new reaper + sequencer + manager on the same image} × every set of deviations within the phase's bounds, where a deviation is (i) a crash point among ALL durable writes of the explored actions and of the reboots (crash before the write, then reboot of all three components on the exact image; at most `crash`) or (ii) an executor error answer: any ExecuteTxs / SetFinal call the node makes during an explored action returns an error without effect on the executor (at most `exec_errors`; in this world only publishBlock's ExecuteTxs is ever called, on a block of a newly taken batch, on a new empty block or on a pending block), crashes + executor errors together at most `crashes_plus_exec_errors`; what follows an executor error is every continuation of the alphabet (retry by the next produce, clean restart, reap, injections, or the drain at once); each history is followed by a deviation-free drain of reap+produce rounds to quiescence, the four oracle clauses and world.CheckChain; executed from scratch on the real Reaper, single.Sequencer and Manager in a synctest bubble; states = deviation-free action histories; distinct = distinct (queue size, chain contents, refusals, releases, crash positions, executor-error positions and follow-up action) signatures",
+		Rule:       "for each (depth, crash, exec_errors, crashes_plus_exec_errors, max_pending_headers_and_data) phase, each queue size and each value of max_pending_headers_and_data of the phase: every enabled action history of length 0..depth over {with a pending limit only: da-acks-headers / da-acks-data = one iteration of the header / data submission loop against an accepting DA layer, enabled while headers / data are pending (an opening in which such an action finds nothing pending equals a shorter opening and is cut: these executions are part of `evaluations`, see first_shard_openings_cut_as_identity; moves the respective watermark; production steps are thereby explored with the header backlog, the data backlog, both or neither at the limit, with and without a batch waiting in the sequencer, declined and resumed; each such step is tagged limit:produce-with-backlog-at-limit[headers|data|headers+data](+batch-waiting) from configuration and watermarks); inject a, inject b, inject a again (same bytes, once execution removed it), reap = Reaper.SubmitTxs, produce = one publishBlock step, clean restart = new reaper + sequencer + manager on the same image} × every set of deviations within the phase's bounds, where a deviation is (i) a crash point among ALL durable writes of the explored actions and of the reboots (crash before the write, then reboot of all three components on the exact image; at most `crash`) or (ii) an executor error answer: any ExecuteTxs / SetFinal call the node makes during an explored action returns an error without effect on the executor (at most `exec_errors`; in this world only publishBlock's ExecuteTxs is ever called, on a block of a newly taken batch, on a new empty block or on a pending block), crashes + executor errors together at most `crashes_plus_exec_errors`; what follows an executor error is every continuation of the alphabet (retry by the next produce, clean restart, reap, injections, or the drain at once); each history is followed by a deviation-free drain of reap+produce rounds to quiescence, the four oracle clauses and world.CheckChain; executed from scratch on the real Reaper, single.Sequencer and Manager in a synctest bubble; states = deviation-free action histories; distinct = distinct (queue size, chain contents, refusals, releases, crash positions, executor-error positions and follow-up action) signatures",
 		Exhaustive: true, Caps: caps,
-		Bounds: map[string]any{"phases": phases, "queue_sizes": queueSizes, "openings": len(openings), "max_decision_points": total.MaxDepth},
+		Bounds: map[string]any{"phases": phases, "queue_sizes": queueSizes, "max_pending_headers_and_data": maxPendings, "openings": nOpenings, "max_decision_points": total.MaxDepth},
 		// RunShards keeps the Extra of the first shard only: these three are per-shard figures (1/16 of the exploration)
 		Extra: map[string]any{"first_shard_histories_with_queue_full_refusal": v.refusal, "first_shard_histories_with_crash": v.crash, "first_shard_crash_free_histories": v.crashFree,
 			"first_shard_histories_with_executor_error": v.execErr, "first_shard_histories_with_executor_error_and_crash": v.execAndCrash, "first_shard_deviation_free_histories": v.plain,
-			"first_shard_setfinal_calls_seen": v.finals},
+			"first_shard_setfinal_calls_seen":      v.finals,
+			"first_shard_openings_cut_as_identity": v.pruned, "first_shard_histories_with_pending_limit": v.limited, "first_shard_histories_with_da_acknowledgement": v.acks,
+			"first_shard_histories_with_production_at_header_limit_only": v.declH, "first_shard_histories_with_production_at_data_limit_only": v.declD,
+			"first_shard_histories_with_production_at_both_limits": v.declHD, "first_shard_histories_with_production_at_limit_and_batch_waiting": v.declW,
+			"first_shard_histories_with_production_at_limit_batch_waiting_and_deviation": v.declWCrash, "first_shard_histories_with_production_resumed_inside_history": v.resume},
 	})
 }
